@@ -45,6 +45,8 @@
 (*                (read-check-create-update without an atomic claim)                          *)
 (*   "createNoRb" mappings:list append failed and the record just written is left behind     *)
 (*   "rbLost"     the delete of the mapping record in a rollback failed itself                *)
+(*   "localClaim" (ClaimLocal only) a claim is won on one node while another node's local     *)
+(*                cache tier holds a claim for the same code (the claim is not cluster-wide)  *)
 (*                                                                                            *)
 (* Singleflight (GenericRepositoryImpl.Get): activators have distinct listen clients that     *)
 (* differ from the target client, and mapping ids are unique, so no two processes ever Get    *)
@@ -60,16 +62,25 @@ CONSTANTS Acts,       \* activator processes (each = one listen client, one Acti
           Quota,      \* max active mappings per client
           Claim,      \* TRUE: repaired design - atomic claim (SetNX) before the mapping is created
           CreateRb,   \* TRUE: repaired design - CreatePortMapping deletes the record if the list append fails
+          Node2,      \* processes that call through node "n2" (all others through "n1"); every node has its own
+                      \* hybrid.Storage: own local cache tier, the shared cache and the persistent tier in common
+          ClaimLocal, \* TRUE: the claim key is classified as node-local runtime data (each node's SetNX goes to
+                      \* its own local cache) - the design the code has when the claim key leaves the shared prefix
           Emit
 
 Rev == "r"
 Procs == Acts \cup (IF HasRev THEN {Rev} ELSE {})
 Target == "T"          \* the target client / address fixed when the code was generated
 Clients == Acts \cup {Target}
+\* Nodes: the code record, id marks, mapping records and index lists are routed by hybrid.Storage to tiers
+\* all nodes have in common (one copy in the model); only the claim key's tier is a parameter.
+NodeOf(p) == IF p \in Node2 THEN "n2" ELSE "n1"
+Slots == {"shared", "n1", "n2"}                       \* where a claim key can live
+Slot(p) == IF ClaimLocal THEN NodeOf(p) ELSE "shared"  \* the tier p's SetNX / Delete of the claim key reaches
 
 VARIABLES rec, recId,    \* the code record under its two keys: [p, act, rev, by, target]
           expired,       \* the activation TTL has elapsed (keys dropped, wall clock past ActivationExpiresAt)
-          claim,         \* holder of the claim key or "none"
+          claim,         \* per tier slot: holder of the claim key or "none"
           maps,          \* mapping records created from this code: [id, listen, target]  (id = creating activator)
           glist, clist,  \* index lists: global list, per-client lists (sets of mapping ids)
           idkeys,        \* id-generator marks
@@ -85,7 +96,8 @@ gview == <<rec, recId, expired, claim, maps, glist, clist, idkeys, pc, snap, res
 Rec0 == [p |-> TRUE, act |-> FALSE, rev |-> FALSE, by |-> "none", target |-> Target]
 Pre(a) == "pre_" \o a
 
-Init == /\ rec = Rec0 /\ recId = Rec0 /\ expired = FALSE /\ claim = "none"
+NoClaim == [s \in Slots |-> "none"]
+Init == /\ rec = Rec0 /\ recId = Rec0 /\ expired = FALSE /\ claim = NoClaim
         /\ maps = {} /\ glist = {}
         /\ clist = [c \in Clients |-> IF c \in PreSet THEN {Pre(c)} ELSE {}]
         /\ idkeys = {}
@@ -134,10 +146,13 @@ QGet(p) == /\ pc[p] = "QGet"
            /\ Log(p, "QGet", FALSE)
 
 ClaimIt(p, f) == /\ pc[p] = "Claim" /\ UseFault(f)
-                 /\ IF f THEN Return(p, "fail") /\ claim' = claim                  \* storage error: nothing to undo
-                    ELSE IF claim # "none" THEN Return(p, "fail") /\ claim' = claim  \* somebody else holds the claim
-                    ELSE Goto(p, "GenId") /\ claim' = IF expired THEN "none" ELSE p  \* (a claim set after expiry lapses at once)
-                 /\ UNCHANGED <<rec, recId, expired, maps, glist, clist, idkeys, snap, dev>>
+                 /\ IF f THEN Return(p, "fail") /\ claim' = claim /\ dev' = dev                  \* storage error: nothing to undo
+                    ELSE IF claim[Slot(p)] # "none" THEN Return(p, "fail") /\ claim' = claim /\ dev' = dev  \* somebody else holds the claim
+                    ELSE /\ Goto(p, "GenId")
+                         /\ claim' = [claim EXCEPT ![Slot(p)] = IF expired THEN "none" ELSE p]  \* (a claim set after expiry lapses at once)
+                         \* deviation: the claim is won although another node's local tier holds one for the same code
+                         /\ dev' = IF \E s \in Slots \ {Slot(p)} : claim[s] # "none" THEN dev \cup {"localClaim"} ELSE dev
+                 /\ UNCHANGED <<rec, recId, expired, maps, glist, clist, idkeys, snap>>
                  /\ Log(p, "Claim", f)
 
 GenId(p, f) == /\ pc[p] = "GenId" /\ UseFault(f)
@@ -246,7 +261,7 @@ RbRelId(p, f) == /\ pc[p] = "RbRelId" /\ UseFault(f)
                  /\ Log(p, "RbRelId", f)
 
 RelClaim(p, f) == /\ pc[p] = "RelClaim" /\ UseFault(f)
-                  /\ claim' = IF f THEN claim ELSE "none"
+                  /\ claim' = IF f THEN claim ELSE [claim EXCEPT ![Slot(p)] = "none"]
                   /\ Return(p, "fail")
                   /\ UNCHANGED <<rec, recId, expired, maps, glist, clist, idkeys, snap, dev>>
                   /\ Log(p, "RelClaim", f)
@@ -278,7 +293,7 @@ Expire == /\ CanExpire /\ ~expired
           /\ \E p \in Procs : pc[p] # "done"
           /\ expired' = TRUE
           /\ rec' = [rec EXCEPT !.p = FALSE] /\ recId' = [recId EXCEPT !.p = FALSE]
-          /\ claim' = "none"
+          /\ claim' = NoClaim
           /\ UNCHANGED <<maps, glist, clist, idkeys, pc, snap, res, faultLeft, dev>>
           /\ Log("env", "Expire", FALSE)
 
@@ -319,16 +334,20 @@ FieldsOK == \A m \in maps : m.target = Target /\ m.listen = m.id
 \* the same properties modulo the named deviations (the only routes to a violation in the model of the code as it is)
 AtMostOneMappingD == AtMostOneMapping \/ "noClaim" \in dev
 AtMostOneSuccessD == AtMostOneSuccess \/ "noClaim" \in dev
+\* a node-local claim (ClaimLocal): the properties hold only modulo the deviation "localClaim"
+AtMostOneMappingL == AtMostOneMapping \/ "localClaim" \in dev
+AtMostOneSuccessL == AtMostOneSuccess \/ "localClaim" \in dev
 FailedLeavesNoneD == FailedLeavesNone \/ dev \cap {"createNoRb", "rbLost"} # {}
 FailedLeavesNoneR == FailedLeavesNone \/ "rbLost" \in dev
 AtMostOneMappingR == AtMostOneMapping \/ "rbLost" \in dev
 \* the repaired design never takes the deviations it removed
-NoLegacyDev == (Claim => "noClaim" \notin dev) /\ (CreateRb => "createNoRb" \notin dev)
+NoLegacyDev == /\ (Claim => "noClaim" \notin dev) /\ (CreateRb => "createNoRb" \notin dev)
+               /\ (~ClaimLocal => "localClaim" \notin dev)
 \* repaired design: while the code has not expired, the claim holder is the only process that can be
 \* between its claim and its return (mutual exclusion of the create-mark-update section)
 InSection(p) == pc[p] \in {"GenId", "CGet", "CSet", "CApp", "CDel", "RelId", "IdxL", "IdxT", "UpdC", "UpdI",
                            "RbGet", "RbRemL", "RbRemT", "RbRemG", "RbDel", "RbRelId", "RelClaim"}
-ClaimExcludes == (Claim /\ ~expired) => Cardinality({p \in Acts : InSection(p)}) <= 1
+ClaimExcludes == (Claim /\ ~ClaimLocal /\ ~expired) => Cardinality({p \in Acts : InSection(p)}) <= 1
 
 \* informational, NOT part of C06 (the statement is silent about index lists; kept for C17): index lists never
 \* name a mapping whose record is gone. Holds in every configuration except expiry + a failing
@@ -338,7 +357,7 @@ NoDangling == Quiet => /\ glist \subseteq MapIds
                        /\ \A c \in Clients : (clist[c] \ {Pre(c)}) \subseteq MapIds
 
 TypeOK == /\ rec.p \in BOOLEAN /\ recId.p \in BOOLEAN /\ expired \in BOOLEAN
-          /\ claim \in Acts \cup {"none"}
+          /\ claim \in [Slots -> Acts \cup {"none"}]
           /\ faultLeft \in 0..MaxFault
           /\ \A p \in Procs : res[p] \in {"none", "ok", "fail"}
           /\ \A p \in Procs : (res[p] # "none") <=> (pc[p] = "done")
